@@ -201,6 +201,7 @@ def run_check(pid, tier, seed, replay=None):
     else:
         cases = corpus + mod.generate(rng, tier)
 
+    os.environ['VERIF_TIER_EFFECTIVE'] = tier
     judges = evaluate(mod, cases, tier)
     counts = {}
     tags = {}
